@@ -34,7 +34,7 @@ META = {
 CFGS = ['off', 'debug', 'trace', 'env']
 INT_T = ['f2', 'fv', 'fm', 'fa', 'ms', 'mv', 'ia', 'iv']
 PA_T = ['fp', 'ip']
-SHAPES = {'f2': 'IS', 'fv': 'V', 'fm': 'SV', 'fp': 'PA', 'fa': 'A', 'ms': 'IS', 'mv': 'SV', 'ia': 'IS', 'iv': 'SV', 'ip': 'PA'}
+SHAPES = {'it': 'I', 'f2': 'IS', 'fv': 'V', 'fm': 'SV', 'fp': 'PA', 'fa': 'A', 'ms': 'IS', 'mv': 'SV', 'ia': 'IS', 'iv': 'SV', 'ip': 'PA'}
 WHEN_OK = ['f2', 'ms', 'ia', 'fv']          # When(..) only where C04's finding F6 (variadic expansion of fixed args) cannot interfere
 INTS = ['-3', '-1', '0', '1', '2', '5', '7', '42', '1000000']
 STRS = ['s', 'sa', 'sab', 'sxyz', 's0']
@@ -43,6 +43,7 @@ ANY_SAFE = ['nil', 'i5', 'i-2', 'i0', 'tab', 't', 'pn0', 'pn1', 'pn2', 'pn3', 't
 ANY_CYC = ['z20', 'z21', 'z22', 'z23']
 CYC_RE = re.compile(r'\bz2[0-3]\b')
 F13_KEY = 'F13-fmt-slice-map-cycle-debug-only'
+F14_KEY = 'F14-mock-of-function-the-console-logger-calls'
 
 
 # ------------------------------------------------------------------ generators
@@ -157,6 +158,14 @@ def gen_streams(tier, rng, scale=1):
     for i in range((6 if tier == 'quick' else 24) * scale):
         risky.append(gen_scenario(r, r.choice(['fa', 'fp', 'ip']), cyc=True))
     risky = [b for b in risky if CYC_RE.search(b)]
+    r = rng.fork('it')
+    for i in range((3 if tier == 'quick' else 12) * scale):
+        o = []
+        for _ in range(r.choice([1, 2])):
+            o += [r.choice(['apply sum%d' % r.below(5), 'ret ' + r.choice(INTS), 'rets 1|2'])] + ['call ' + r.choice(INTS) for _ in range(r.choice([1, 2]))] + ['cancel']
+        if r.chance(1, 2):
+            o.insert(r.below(len(o)), 'dbg ' + r.choice(['on', 'off', 'tron', 'troff']))
+        risky.append('it ' + ' ; '.join(o))
     r = rng.fork('sv')
     sv = ['c19.sv ' + ' '.join(r.choice(SV_TOKS) for _ in range(r.choice([0, 1, 2, 3, 5])))
           for _ in range((150 if tier == 'quick' else 3000) * scale)]
@@ -169,6 +178,10 @@ CORPUS_RISKY = [
     'fa ret 5 ; call z21',                             # through the When stub (MakeFunc over m.callback)
     'fp apply echo ; call n1,z22',
     'ip ret n0,z23 ; call nil,nil',                    # cycle in a RESULT, interface proxy wrapper
+    'it apply sum1 ; call 5 ; cancel',                 # F14: strconv.Itoa is called by logger.caller
+    'it ret 9 ; call 5 ; call 7 ; cancel',
+    'it dbg on ; apply sum2 ; dbg off ; call 7 ; dbg on ; call 7 ; cancel',   # wrapped, console off: no re-entry; console on: re-entry
+    'it dbg off ; apply sum1 ; dbg on ; call 3 ; cancel',                      # applied while closed: never wrapped, all four agree
 ]
 
 
@@ -333,6 +346,8 @@ def oracle(body, g, impl):
     opens = ' dbg on' in body or ' dbg tron' in body
     if crashed and CYC_RE.search(body) and len(alive) <= 1 and all(T[c] == 'CRASH:stack-overflow' and (c != 'off' or opens) for c in crashed):
         key = F13_KEY
+    if crashed and body.split()[0] == 'it' and len(alive) <= 1 and all(T[c] == 'CRASH:stack-overflow' and (c != 'off' or opens) for c in crashed):
+        key = F14_KEY
     what = f'scenario `{body}`: ' + '; '.join(f'{c}: {T[c]}' for c in CFGS)
     return (what, key)
 
@@ -366,7 +381,7 @@ def assess(ops, impl, model, groups, out, report=True):
 def run(tier):
     out = C.Outcome('C19', tier)
     rng = C.Rng(C.seed()).fork('C19')
-    proof = C.prove('C19', extra_targets=['GoomVerif.Findings.C19F13'], leanchecker=(tier == 'thorough'))
+    proof = C.prove('C19', extra_targets=['GoomVerif.Findings.C19F13', 'GoomVerif.Findings.C19F14'], leanchecker=(tier == 'thorough'))
     bodies, risky, sv = gen_streams(tier, rng)
     ops, impl, model, groups, derr = execute(bodies, risky, sv)
     nbad = sum(1 for i, o in enumerate(ops) if impl[i] == 'bad-op')
@@ -424,7 +439,7 @@ def run(tier):
         'traces_validated_against_impl': len(ops) - len(diffs),
         'rule': 'one evaluation = one scenario under one logging configuration (or one SprintV vector); every scenario is replayed under off/debug/trace/env '
                 'in separate processes; non-trivial = distinct (target, transcript) of scenarios in which a mock was reached with debug open (wrapper run or call logged)',
-        'distribution': {'scenarios': len(groups), 'isolated_cycle_scenarios': sum(1 for _, _, rk in groups if rk), 'sprintv_vectors': len(sv),
+        'distribution': {'scenarios': len(groups), 'isolated_scenarios(cycles, logger-called target)': sum(1 for _, _, rk in groups if rk), 'sprintv_vectors': len(sv),
                          'by_target': dist, 'by_op': opk, 'callback_runs_through_wrapper(debug cfg)': wrapped_runs, 'call_log_lines(debug cfg)': logged,
                          'panic_outcomes(debug cfg)': panics, 'process_deaths': crashes, 'oracle_failures': len(bad),
                          'oracle_failures_matching_known_finding': sum(1 for b in bad if b[2] is not None), 'model_disagreements': len(diffs),
